@@ -3,7 +3,7 @@
    0x46af6449, 32 trailing zero steps).  Spec: Spec/Crc32.v (textbook bit-serial register, polynomial
    0x04C11DB7, initial value 0xFFFFFFFF, MSB first, no reflection, no final XOR).
    This file holds only the statements; proofs live in Proofs/CrcRegister.v. *)
-From Gots Require Import Base.Prelude Model.Crc Spec.Crc32 Proofs.CrcRegister Proofs.CrcUnique Proofs.CrcTable Proofs.CrcLinear Proofs.CrcDetect.
+From Gots Require Import Base.Prelude Model.Crc Spec.Crc32 Proofs.CrcRegister Proofs.CrcUnique Proofs.CrcTable Proofs.CrcLinear Proofs.CrcDetect Proofs.CrcBurst.
 Local Open Scope N_scope.
 
 (* for EVERY byte string (no length bound, no side condition) the four bytes returned are the
@@ -85,6 +85,16 @@ Theorem C13_single_bit_error_detected : forall (s : bytes) i j, (i < length s)%n
   Crc32.residue_ok s -> ~ Crc32.residue_ok (Crc32.flip s i j).
 Proof. exact single_bit_error_detected. Qed.
 Print Assumptions C13_single_bit_error_detected.
+
+(* burst errors: the bit string received differs from the bits of the message by a non-zero 32-bit window w placed
+   anywhere (burst a w b = a zero bits, the 32 bits of w MSB first, b zero bits; zipx = bitwise XOR of bit lists;
+   definitions in Proofs/CrcBurst.v, CrcLinear.v, CrcRegister.v): the register differs, i.e. every burst error of at
+   most 32 bits is detected *)
+Theorem C13_burst_error_changes_crc : forall (bs : bytes) a w b, (8 * length bs = a + 32 + b)%nat ->
+  w < 4294967296 -> w <> 0 ->
+  Crc32.register Crc32.init (zipx (Crc32.bits_of bs) (burst a w b)) <> Crc32.crc bs.
+Proof. exact burst_error_changes_crc. Qed.
+Print Assumptions C13_burst_error_changes_crc.
 
 (* non-vacuity / sanity of the specification: catalogue check value of CRC-32/MPEG-2 ("123456789" -> 0x0376E6E7),
    and the model on the same input *)
